@@ -310,9 +310,10 @@ func (r Stack) Swap(i, j int) {
 }
 
 func (r *stack) swap(i, j int) {
-	if ok := i <= r.ulen(); !ok {
+	// both positions must address an existing user slice
+	if ok := 0 <= i && i < r.ulen(); !ok {
 		return
-	} else if ok = j <= r.ulen(); !ok {
+	} else if ok = 0 <= j && j < r.ulen(); !ok {
 		return
 	}
 
